@@ -124,7 +124,8 @@ var keyPool = []string{"resultData", "nodeManagementDetailedDiscoveryData", "nod
 	"nodeManagementSubscriptionDeleteCall", "nodeManagementBindingRequestCall", "nodeManagementBindingDeleteCall",
 	"nodeManagementSubscriptionData", "nodeManagementBindingData", "nodeManagementUseCaseData", "nodeManagementDestinationListData",
 	"loadControlLimitConstraintsListData", "loadControlNodeData", "measurementListData", "deviceClassificationManufacturerData",
-	"partial", "delete", "loadControlLimitConstraintsListDataSelectors", "loadControlLimitConstraintsDataElements", "addressSource", "addressDestination",
+	"partial", "delete", "loadControlLimitConstraintsListDataSelectors", "loadControlLimitConstraintsDataElements",
+	"measurementListDataSelectors", "measurementDataElements", "addressSource", "addressDestination",
 	"subscriptionRequest", "subscriptionDelete", "bindingRequest", "bindingDelete", "clientAddress", "serverAddress"}
 
 func mutateTree(r *hx.Rng, msg []byte) []byte {
@@ -141,6 +142,11 @@ func mutateTree(r *hx.Rng, msg []byte) []byte {
 		n = r.Range(3, 4)
 	case 3:
 		n = r.Range(5, 9)
+	}
+	// filters carrying the selectors / elements of ANOTHER function than the cmd's (and one the feature does
+	// not have): replace the filter's own field, or put the foreign one next to it, or give a filter-less cmd one
+	if r.Chance(1, 6) {
+		addForeignFilter(r, tree)
 	}
 	for i := 0; i < n; i++ {
 		var nodes []node
@@ -250,4 +256,55 @@ func randomBytes(r *hx.Rng) []byte {
 		b.WriteByte(byte(r.Intn(256)))
 	}
 	return b.Bytes()
+}
+
+var foreignSelector = func() map[string]any { return map[string]any{"measurementId": float64(1)} }
+var foreignElements = func() map[string]any { return map[string]any{"value": map[string]any{}} }
+
+func addForeignFilter(r *hx.Rng, tree any) {
+	root, _ := tree.(map[string]any)
+	dg, _ := root["datagram"].(map[string]any)
+	pl, _ := dg["payload"].(map[string]any)
+	cmds, _ := pl["cmd"].(*arr)
+	if cmds == nil || len(cmds.v) == 0 {
+		return
+	}
+	c, _ := cmds.v[0].(map[string]any)
+	if c == nil {
+		return
+	}
+	fl, _ := c["filter"].(*arr)
+	if fl == nil || len(fl.v) == 0 {
+		ctrl := "partial"
+		if r.Chance(1, 3) {
+			ctrl = "delete"
+		}
+		fl = &arr{v: []any{map[string]any{"cmdControl": map[string]any{ctrl: map[string]any{}}}}}
+		c["filter"] = fl
+	}
+	f, _ := fl.v[r.Intn(len(fl.v))].(map[string]any)
+	if f == nil {
+		return
+	}
+	switch r.Pick(4, 2, 2, 1) {
+	case 0: // the foreign selector instead of the own one
+		delete(f, "loadControlLimitConstraintsListDataSelectors")
+		f["measurementListDataSelectors"] = foreignSelector()
+	case 1: // next to the own one
+		f["measurementListDataSelectors"] = foreignSelector()
+	case 2: // foreign elements
+		delete(f, "loadControlLimitConstraintsDataElements")
+		f["measurementDataElements"] = foreignElements()
+	case 3:
+		f["measurementListDataSelectors"] = foreignSelector()
+		f["measurementDataElements"] = foreignElements()
+	}
+	// now and then empty the data list as well: the update then fails and the stack re-reads the data
+	if r.Chance(1, 3) {
+		for _, k := range []string{"loadControlLimitConstraintsListData", "measurementListData"} {
+			if _, ok := c[k]; ok {
+				c[k] = map[string]any{}
+			}
+		}
+	}
 }
